@@ -116,6 +116,45 @@ func c14ContentForSharedParent() string {
 	case b := <-bad:
 		return b
 	default:
+	}
+	// a stored block that FAILS when it is replayed, from several goroutines at once: every replay
+	// reports the error (and the race detector must stay quiet)
+	failing, err := plush.Parse(`<% contentFor("f") { %>a<%= boom.Name() %>b<% } %>`)
+	if err != nil {
+		return "parse: " + err.Error()
+	}
+	parent.Set("boom", T0{"x"})
+	if _, err := failing.Exec(parent); err != nil {
+		return "failing view: " + err.Error()
+	}
+	parent.Set("boom", 7)
+	rf, err := plush.Parse(`x<%= contentOf("f") %>y`)
+	if err != nil {
+		return "parse: " + err.Error()
+	}
+	for g := 0; g < G; g++ {
+		wg.Add(1)
+		go func(g int) {
+			defer wg.Done()
+			defer func() {
+				if r := recover(); r != nil {
+					bad <- fmt.Sprintf("goroutine %d panicked: %v", g, r)
+				}
+			}()
+			for i := 0; i < iters/4; i++ {
+				s, err := rf.Exec(parent.New())
+				if err == nil || s != "" {
+					bad <- fmt.Sprintf("goroutine %d: replay of a failing block gave %q, %v", g, s, err)
+					return
+				}
+			}
+		}(g)
+	}
+	wg.Wait()
+	select {
+	case b := <-bad:
+		return b
+	default:
 		return "ok"
 	}
 }
@@ -250,7 +289,6 @@ func init() {
 		// execution's evaluator, whose scope pointer every replay swaps)
 		{
 			cmd := exec.Command(os.Args[0], "-prop", "C14", "-witness", "cfshared")
-			cmd.Env = append(os.Environ(), "GORACE=log_path=/dev/null halt_on_error=0 exitcode=0")
 			out, _ := cmd.CombinedOutput()
 			res := strings.TrimSpace(string(out))
 			if i := strings.LastIndex(res, "\n"); i >= 0 {
